@@ -102,6 +102,10 @@ const EXCLUDES: &[&[&str]] = &[&["/a"], &["x"], &["/a*"], &["*b"]];
 
 /// Check every listable version of the archive at `root`. Returns false on violation.
 fn check_archive(run: &Run, root: &Path, n_bands: u32, with_filters: bool, replay: &Value, what: &dyn Fn() -> Value) -> bool {
+    check_archive_budget(run, root, n_bands, with_filters, replay, what, 50_000)
+}
+
+fn check_archive_budget(run: &Run, root: &Path, n_bands: u32, with_filters: bool, replay: &Value, what: &dyn Fn() -> Value, budget: usize) -> bool {
     let raw = fmt06::read_archive(root, false);
     for n in 0..n_bands {
         let Some(b) = raw.bands.get(&n) else { continue };
@@ -109,12 +113,12 @@ fn check_archive(run: &Run, root: &Path, n_bands: u32, with_filters: bool, repla
             continue;
         }
         let model = stitch_model(&raw, n);
-        let ic = Icept::with_budget(root, Mode::Log, 0, 50_000);
+        let ic = Icept::with_budget(root, Mode::Log, 0, budget);
         let l = cs::list(ic.transport(1), Some(n), "/", &[]);
         run.eval();
         run.count("listings_compared", 1);
         if ic.over_budget() {
-            run.violation("listing-does-not-terminate", format!("listing b{n:04} exceeded 50000 storage operations: {}", what()), replay.clone());
+            run.violation("listing-does-not-terminate", format!("listing b{n:04} exceeded {budget} storage operations: {}", what()), replay.clone());
             return false;
         }
         if let Some(p) = &l.panic {
@@ -128,11 +132,21 @@ fn check_archive(run: &Run, root: &Path, n_bands: u32, with_filters: bool, repla
         let got: Vec<(&str, Option<&str>)> = listed.iter().map(|e| (e.apath.as_str(), e.target.as_deref())).collect();
         let want: Vec<(&str, Option<&str>)> = model.iter().map(|(_, e)| (e.apath.as_str(), e.target.as_deref())).collect();
         if got != want {
-            run.violation(
-                "listing-differs-from-stitching-rule",
-                format!("listing b{n:04} gave {got:?}, the rule gives {want:?}; archive {}", what()),
-                replay.clone(),
-            );
+            let detail = if got.len().max(want.len()) <= 40 {
+                format!("listing b{n:04} gave {got:?}, the rule gives {want:?}; archive {}", what())
+            } else {
+                let i = got.iter().zip(want.iter()).position(|(a, b)| a != b).unwrap_or(got.len().min(want.len()));
+                let lo = i.saturating_sub(2);
+                format!(
+                    "listing b{n:04} gave {} entries, the rule gives {}; they first differ at position {i}: listed {:?}, rule {:?}; archive {}",
+                    got.len(),
+                    want.len(),
+                    &got[lo.min(got.len())..(i + 3).min(got.len())],
+                    &want[lo.min(want.len())..(i + 3).min(want.len())],
+                    what()
+                )
+            };
+            run.violation("listing-differs-from-stitching-rule", detail, replay.clone());
             return false;
         }
         if let Some((a, bb)) = first_disorder(got.iter().map(|g| g.0)) {
@@ -336,6 +350,49 @@ fn random_case(run: &Run, case: u64) {
     run.sample(|| what());
 }
 
+/// Scale: bands of more than 10 000 one-entry hunks (two index subdirectories), written by the
+/// harness: a complete one, an incomplete one that stops inside the second subdirectory, and an
+/// incomplete one of five hunks on top; every version is listed and compared with the rule.
+fn many_hunks(run: &Run) {
+    let sc = Scratch::new("c08big");
+    let root = sc.join("arch");
+    fmt06::write_archive_header(&root);
+    let n0 = 10_040usize;
+    let path = |i: usize| format!("/d/f{i:05}");
+    let band = |id: u32, upto: usize, skip_every: usize| -> Vec<Vec<Value>> {
+        let mut v = vec![vec![symlink_entry("/d", &format!("b{id}:/d"))]];
+        v[0][0] = json!({"apath": "/d", "kind": "Dir", "mtime": 0, "unix_mode": 493});
+        for i in 0..upto {
+            if skip_every > 0 && i % skip_every == 3 {
+                continue;
+            }
+            v.push(vec![symlink_entry(&path(i), &format!("b{id}:{}", path(i)))]);
+        }
+        v
+    };
+    fmt06::write_band(&root, 0, &band(0, n0, 0), true);
+    fmt06::write_band(&root, 1, &band(1, 10_020, 7), false);
+    fmt06::write_band(&root, 2, &band(2, 4, 0), false);
+    let replay = json!({"many_hunks": true});
+    let what = || json!("harness-written archive: b0000 complete with 10 041 one-entry hunks, b0001 incomplete with about 8 600 (every 7th path absent, stopping inside i/00001... of b0000's range), b0002 incomplete with 5");
+    if check_archive_budget(run, &root, 3, false, &replay, &what, 2_000_000) {
+        run.count("listings_of_versions_with_more_than_10000_hunks", 3);
+    }
+    // and below the directory only
+    let raw = fmt06::read_archive(&root, false);
+    for n in 0..3u32 {
+        let model = stitch_model(&raw, n);
+        let l = cs::list(cs::local(&root), Some(n), "/d/f10010", &[]);
+        let want: Vec<&str> = model.iter().map(|(_, e)| e.apath.as_str()).filter(|p| tree::is_under(p, "/d/f10010")).collect();
+        let got: Option<Vec<&str>> = l.value().map(|v| v.iter().map(|e| e.apath.as_str()).collect());
+        run.eval();
+        if got.as_ref() != Some(&want) {
+            run.violation("subtree-listing-differs-from-filtered-rule", format!("b{n:04} subtree /d/f10010 of the 10 041-hunk archive: got {got:?} want {want:?}"), replay.clone());
+            return;
+        }
+    }
+}
+
 pub fn run(tier: Tier, replay: Option<Value>) -> i32 {
     let run = Run::new("C08", "exploration", tier, replay.clone());
     let p4 = sorted_paths(vec!["/a".into(), "/a/x".into(), "/ab".into(), "/é".into()]);
@@ -365,28 +422,32 @@ pub fn run(tier: Tier, replay: Option<Value>) -> i32 {
             write_archive(&root, paths, &bands);
             let what = || describe(&bands, paths);
             check_archive(&run, &root, b as u32, true, r, &what);
+        } else if r.get("many_hunks").is_some() {
+            many_hunks(&run);
         } else {
             random_case(&run, r["case"].as_u64().unwrap_or(0));
         }
         return run.finish("replay", &[], None, &[]);
     }
     run.sample(|| json!({"path_alphabets": {"P4": p4, "P3": p3, "P2": p2}, "band_states_P4": band_states(4).len(), "band_states_P3": band_states(3).len()}));
-    exhaustive(&run, 2, 4, &p4, 0);
-    exhaustive(&run, 3, 3, &p3, 0);
-    exhaustive(&run, 2, 3, &p3, 1);
-    exhaustive(&run, 3, 2, &p2, 2);
-    if tier == Tier::Thorough {
-        exhaustive(&run, 4, 2, &p2, 0);
-        exhaustive(&run, 3, 2, &p2, 1);
-        exhaustive(&run, 3, 3, &p3, 2);
-        exhaustive(&run, 3, 4, &p4, 0);
-    }
-    run.par_cases(tier.pick(3000, 50_000), super::threads(), |c| random_case(&run, c));
+    super::alongside(&run, "the many-hunks listing", || many_hunks(&run), || {
+        exhaustive(&run, 2, 4, &p4, 0);
+        exhaustive(&run, 3, 3, &p3, 0);
+        exhaustive(&run, 2, 3, &p3, 1);
+        exhaustive(&run, 3, 2, &p2, 2);
+        if tier == Tier::Thorough {
+            exhaustive(&run, 4, 2, &p2, 0);
+            exhaustive(&run, 3, 2, &p2, 1);
+            exhaustive(&run, 3, 3, &p3, 2);
+            exhaustive(&run, 3, 4, &p4, 0);
+        }
+        run.par_cases(tier.pick(3000, 50_000), super::threads(), |c| random_case(&run, c));
+    });
     let exhaustive_ok = run.counter("exhaustive_spaces_cut_short") == 0;
     run.finish(
-        "archives written directly in the documented format by the harness: every assignment of {absent, every subset of a P-path alphabet x every split into consecutive non-empty hunks (or no hunk) x {complete, incomplete}} to B bands, exhaustively for (B=2,P=4) and (B=3,P=3), for (B=2,P=3) with one EMPTY hunk (a json [] as old versions wrote) inserted at every position, and for (B=3,P=2) with head-less band directories (empty; with hunks; with hunks and a tail — what a killed band creation or a killed version removal leaves) as additional states [thorough: also (B=4,P=2), (B=3,P=4), (B=3,P=2) with an empty hunk]; each entry is a symlink whose target names its band and path. For every existing N the real iter_entries(Specified(N)) must equal the executable stitching rule over the raw files (paths and targets), be strictly increasing under the C11 order model and finish within 50000 storage operations; on a 1-in-16 sample also with 5 subtrees and 4 exclusion sets against the filtered model. Random archives beyond (<=6 bands, <=12 paths, random splits, an empty hunk inserted in a third of the bands, a removed hunk file in a third of the archives). Distinct non-trivial = archives with an incomplete band and >= 2 existing bands (exhaustive part, by index) + random cases.",
+        "one harness-written archive of three versions with more than 10 000 one-entry hunks (complete; incomplete stopping in the second index subdirectory; incomplete with 5 hunks); then archives written directly in the documented format by the harness: every assignment of {absent, every subset of a P-path alphabet x every split into consecutive non-empty hunks (or no hunk) x {complete, incomplete}} to B bands, exhaustively for (B=2,P=4) and (B=3,P=3), for (B=2,P=3) with one EMPTY hunk (a json [] as old versions wrote) inserted at every position, and for (B=3,P=2) with head-less band directories (empty; with hunks; with hunks and a tail — what a killed band creation or a killed version removal leaves) as additional states [thorough: also (B=4,P=2), (B=3,P=4), (B=3,P=2) with an empty hunk]; each entry is a symlink whose target names its band and path. For every existing N the real iter_entries(Specified(N)) must equal the executable stitching rule over the raw files (paths and targets), be strictly increasing under the C11 order model and finish within 50000 storage operations; on a 1-in-16 sample also with 5 subtrees and 4 exclusion sets against the filtered model. Random archives beyond (<=6 bands, <=12 paths, random splits, an empty hunk inserted in a third of the bands, a removed hunk file in a third of the archives). Distinct non-trivial = archives with an incomplete band and >= 2 existing bands (exhaustive part, by index) + random cases.",
         &["fmt06 writer produces what doc/format.md describes (cross-checked: conserve lists them)", "stitching rule as stated in oracle::stitch_model"],
         Some(exhaustive_ok),
-        &[("listings_compared", 1000), ("listings_spanning_several_bands", 100), ("filtered_listings_compared", 100), ("random_archives", 100)],
+        &[("listings_compared", 1000), ("listings_spanning_several_bands", 100), ("filtered_listings_compared", 100), ("random_archives", 100), ("listings_of_versions_with_more_than_10000_hunks", 3)],
     )
 }
